@@ -85,8 +85,11 @@ Proof. unfold for_each. now intros ->. Qed.
 Theorem for_each_missing s p : resolve s p = None -> for_each s p = [].
 Proof. unfold for_each. now intros ->. Qed.
 Theorem for_each_scalar s p v : resolve s p = Some v ->
-  (forall l, v <> VList l) -> (forall l, v <> VArr l) -> for_each s p = [].
-Proof. unfold for_each. intros -> H1 H2. destruct v; try reflexivity; [now specialize (H1 l)|now specialize (H2 l)]. Qed.
+  (forall l, v <> VList l) -> (forall l, v <> VArr l) -> map_items v = None -> for_each s p = [].
+Proof.
+  unfold for_each. intros -> H1 H2 H3. destruct v; try reflexivity; try discriminate;
+    [now specialize (H1 l)|now specialize (H2 l)].
+Qed.
 (* 2. the loop variable is bound inside the instance only: innermost scope, shadowing everything *)
 Theorem loop_var_visible s x i v : lookup (bind (push s []) [x] i v) x = Some v.
 Proof. cbn [bind]. apply set_then_lookup. Qed.
